@@ -2348,7 +2348,9 @@ void mmd_start_complete_html(DString * out, const char * source, scratch_pad * s
 	HASH_FIND_STR(scratch->meta_hash, "language", m);
 
 	if (m) {
-		printf(" lang=\"%s\"", m->value);
+		print_const(" lang=\"");
+		mmd_print_string_html(out, m->value, false, false);
+		print_const("\"");
 	} else {
 		switch (scratch->language) {
 			case LC_ES:
